@@ -72,3 +72,75 @@ Fixpoint mem_after (m : mem) (fr : N) (ops : list op) : mem :=
 
 (* the dataset model after the same history *)
 Definition ds_after (d : ds) (ops : list op) : ds := fold_left (fun d o => fst (do_op d o)) ops d.
+
+(* ------------------------------------------------------------------ *)
+(* The front end's READS computed from the Memory model's store reads, call by
+   call as graph.py makes them (none of them writes: _spoc and _graph(copy=False)
+   resolve the graph argument to a name, see C02_front_end_is_store_calls). *)
+
+(* ConjunctiveGraph.triples: the default_union dispatch (with the alias of finding
+   F20, as the code has it), then store.triples(pattern, context) *)
+Definition m_triples (m : mem) (p : pat) (ca : ctxarg) (kw : option garg) (du : bool) : list triple :=
+  mem_triples_k m (du_dispatch du (eff_graph ca kw)) p.
+
+(* __contains__ *)
+Definition m_contains (m : mem) (p : pat) (ca : ctxarg) (du : bool) : bool :=
+  negb (is_nil (m_triples m p ca None du)).
+
+(* quads: for every triple store.triples yields, one quad per context of the
+   generator that comes with it - all the triple's graphs (the leak of F17) *)
+Definition m_quads (m : mem) (p : pat) (ca : ctxarg) : list quad :=
+  flat_map (fun t => map (fun g => (t, g)) (mem_contexts_of m t)) (mem_triples_k m (eff_graph ca None) p).
+
+Definition m_len (m : mem) : N := mem_len_k m None.
+Definition m_view_triples (m : mem) (c : cid) (p : pat) : list triple := mem_triples_k m (Some c) p.
+Definition m_view_len (m : mem) (c : cid) : N := mem_len_k m (Some c).
+
+(* Dataset.graphs() / ConjunctiveGraph.contexts(), and with a triple *)
+Definition list_default (dataset : bool) (l : list cid) : list cid :=
+  if dataset then (if memb N.eqb 0%N l then l else l ++ [0%N]) else l.
+Definition m_graphs (dataset : bool) (m : mem) : list cid := list_default dataset (mem_contexts m).
+Definition m_contexts_of (dataset : bool) (m : mem) (t : triple) : list cid :=
+  list_default dataset (mem_contexts_of m t).
+
+(* the answer of a read operation over Memory *)
+Definition m_read (dataset : bool) (m : mem) (o : op) : res :=
+  match o with
+  | OTriples p ca kw du => RTriples (m_triples m p ca kw du)
+  | OQuads p ca => RQuads (m_quads m p ca)
+  | OContains p ca du => RBool (m_contains m p ca du)
+  | OContexts t => RNames (m_contexts_of dataset m t)
+  | _ => RNone
+  end.
+
+(* ------------------------------------------------------------------ *)
+(* a whole history over Memory, observed as Dataset/Model.v observes it: the
+   operation's own answer and the snapshot after it *)
+Definition m_snapshot (c : case) (m : mem) : snap :=
+  {| o_quads := m_quads m pall CTriple;
+     o_graphs := m_graphs (c_ds c) m;
+     o_views := map (fun g => (g, m_view_triples m g pall)) (c_names c);
+     o_vlens := map (m_view_len m) (c_names c);
+     o_len := m_len m;
+     o_union := m_triples m pall CTriple None true;
+     o_dflt := m_triples m pall CTriple None false;
+     o_mem := flat_map (fun g => map (fun t => m_contains m (pat_of t) (CQuad (Some (GId g))) false) (c_vocab c)) (c_names c) |}.
+
+(* what a write hands back (it depends on the name counter only) *)
+Definition m_res (dataset : bool) (m : mem) (fr : N) (o : op) : res :=
+  match o with
+  | OAdd _ _ | OAddN _ | ORemove _ _ | ORemoveGraph _ => RSelf
+  | OGraph oa => RNames [match oa with None => (FRESH_BASE + fr)%N | Some a => arg_name a end]
+  | ORemoveContext _ => RNone
+  | _ => m_read dataset m o
+  end.
+
+Fixpoint m_run (c : case) (m : mem) (fr : N) (ops : list op) : obs :=
+  match ops with
+  | [] => []
+  | o :: r =>
+      let m' := fold_left mem_top (wops fr o) m in
+      (m_res (c_ds c) m fr o, m_snapshot c m') :: m_run c m' (fresh_step fr o) r
+  end.
+
+Definition m_model_obs (c : case) : obs := m_run c mem_empty 0%N (c_ops c).
